@@ -86,6 +86,11 @@ func (t *Transport) Read() ([]byte, error) {
 	if err != nil {
 		return nil, fmt.Errorf("decode: %w", err)
 	}
+	// The DEFLATE stream can end before the frame reader has reported EOF, and the connection
+	// hands out the next reader only after the previous message was read to completion.
+	if _, err := io.Copy(io.Discard, rd); err != nil {
+		return nil, fmt.Errorf("drain: %w", err)
+	}
 	atomic.AddUint64(t.rxBytesCounter, uint64(n))
 	return m, nil
 }
